@@ -7,7 +7,7 @@ fn div_rem_in_place_same_len(
     memory: &mut Memory,
 ) -> bool
 /*@
-    requires rhs@.len() > div::THRESHOLD_SIMPLE, old(lhs)@.len() == 2 * rhs@.len(), old(lhs)@.len() <= usize::MAX,
+    requires rhs@.len() > 32 /* div::THRESHOLD_SIMPLE */, old(lhs)@.len() == 2 * rhs@.len(), old(lhs)@.len() <= usize::MAX,
         div_prepared(rhs@, fast_div_rhs_top),
         3 * rhs@.len() + 4 <= SignedWord::MAX,
         mem_ok(*old(memory), gneed(rhs@.len() as int / 2)),
